@@ -590,6 +590,10 @@ type vProg struct {
 	forceH  int // >= 0: the other handle of a forced cross-handle operation
 	hotMax  int
 	hotAvd  int
+	forceCopySrc bool // the position given to planAt must become the SOURCE of a CopyTo
+	roCopy  int  // >= 0: handle that has just been marked read-only and has not been copied from yet
+	touchH  int  // handle that received a copy of a read-only value: the next touchN steps update it in place
+	touchN  int
 	roBurst int // steps left in which operations are aimed at the handle that has just been marked read-only
 	roH     int
 	nested  *vPos // a map that has just been created inside a map: the next step puts an entry into it
@@ -764,6 +768,7 @@ func (g *vProg) plan() *vPlan {
 			*vStateOf(g.roots[h]) = internal.StateReadOnly
 			g.ro[h] = true
 			g.roBurst, g.roH = 4, h
+			g.roCopy = h
 		}}
 	}
 	all := g.all()
@@ -779,6 +784,57 @@ func (g *vProg) plan() *vPlan {
 		for try := 0; try < 20 && len(mine) > 0; try++ {
 			if pl := g.planAt(mine[rng.Intn(len(mine))], all); pl != nil {
 				g.out.Stat("readonly_burst_ops", 1)
+				return pl
+			}
+		}
+	}
+	if g.roCopy >= 0 && g.roBurst == 0 {
+		// a read-only value is still a legitimate SOURCE of copies: copy it (struct or field level) into another handle;
+		// the copy is then updated in place (touch) and must not show through in the read-only original
+		h := g.roCopy
+		g.roCopy = -1
+		var mine []vPos
+		for _, q := range all {
+			if q.h == h {
+				mine = append(mine, q)
+			}
+		}
+		g.forceCopySrc = true
+		var pl *vPlan
+		for try := 0; try < 12 && len(mine) > 0 && pl == nil; try++ {
+			q := mine[0]
+			if try > 0 {
+				q = mine[rng.Intn(len(mine))]
+			}
+			pl = g.planAt(q, all)
+		}
+		g.forceCopySrc = false
+		if pl != nil {
+			g.out.Stat("copy_from_readonly_forced", 1)
+			return pl
+		}
+	}
+	if g.touchN > 0 {
+		g.touchN--
+		var prims, mine []vPos
+		for _, q := range all {
+			if q.h == g.touchH {
+				mine = append(mine, q)
+				if q.n == 5 {
+					prims = append(prims, q)
+				}
+			}
+		}
+		if len(prims) > 0 && rng.Intn(10) < 7 {
+			g.ctr++
+			if pl := g.planSetP(prims[rng.Intn(len(prims))], 0, 50+g.ctr%40); pl != nil {
+				g.out.Stat("touch_copy_of_readonly_prim", 1)
+				return pl
+			}
+		}
+		for try := 0; try < 10 && len(mine) > 0; try++ {
+			if pl := g.planAt(mine[rng.Intn(len(mine))], all); pl != nil {
+				g.out.Stat("touch_copy_of_readonly", 1)
 				return pl
 			}
 		}
@@ -803,6 +859,14 @@ func (g *vProg) plan() *vPlan {
 								v.SetEmptyBytes()
 							}
 						}}
+				}
+				if ps := vPrimSliceFields(q.n); len(ps) > 0 && rng.Intn(3) == 0 { // bucket counts etc.: content that a copy could share
+					j := ps[rng.Intn(len(ps))]
+					w := vSlotW(q.n, q.node, j)
+					zs := []int64{int64(rng.Intn(9) + 1), int64(rng.Intn(9) + 1), int64(rng.Intn(9) + 1)}
+					return &vPlan{term: fmt.Sprintf("OLocal %d %s (LAppendP %d %s)", q.h, vPathTerm(q.p), j, vZs(zs)), name: "prim-append", writes: []int{q.h}, run: func() {
+						reflect.ValueOf(w).MethodByName("Append").CallSlice([]reflect.Value{vPrimArgs(w, zs)})
+					}}
 				}
 				if opt := vOptFields(q.n); len(opt) > 0 && rng.Intn(2) == 0 { // (exponential) histogram point: set one of the optional fields (regression shape of ad68bfbbc)
 					j := opt[rng.Intn(len(opt))]
@@ -854,7 +918,7 @@ func (g *vProg) planAt(pos vPos, all []vPos) *vPlan {
 	pt := vPathTerm(pos.p)
 	loc := func(lo string) string { return fmt.Sprintf("OLocal %d %s (%s)", h, pt, lo) }
 	// struct-level operations
-	if g.forceC < 0 && rng.Intn(6) == 0 {
+	if g.forceC < 0 && (g.forceCopySrc || rng.Intn(6) == 0) {
 		for _, sr := range vStructRows {
 			if sr != n {
 				continue
@@ -869,7 +933,7 @@ func (g *vProg) planAt(pos vPos, all []vPos) *vPlan {
 				break
 			}
 			d := cands[rng.Intn(len(cands))]
-			if n != 20 && rng.Intn(3) == 0 {
+			if n != 20 && !g.forceCopySrc && rng.Intn(3) == 0 {
 				return &vPlan{term: fmt.Sprintf("OMoveRow %d %d %s %d %s", n, h, pt, d.h, vPathTerm(d.p)), name: "move-row", writes: []int{h, d.h},
 					run: func() { vCall(node, "MoveTo", d.node) },
 					post: func(before []string, panicked bool) {
@@ -884,7 +948,12 @@ func (g *vProg) planAt(pos vPos, all []vPos) *vPlan {
 			}
 			g.regressionShape(vReadRow(n, node), vReadRow(n, d.node))
 			return &vPlan{term: fmt.Sprintf("OCopyRow %d %d %s %d %s", n, h, pt, d.h, vPathTerm(d.p)), name: "copy-row", writes: []int{d.h},
-				run: func() { vCall(node, "CopyTo", d.node) },
+				run: func() {
+					vCall(node, "CopyTo", d.node)
+					if g.ro[h] {
+						g.touchH, g.touchN = d.h, 4
+					}
+				},
 				post: func(before []string, panicked bool) {
 					if panicked {
 						return
@@ -894,6 +963,18 @@ func (g *vProg) planAt(pos vPos, all []vPos) *vPlan {
 					g.copyOracle(vReadRow(n, sn), vReadRow(n, dn))
 				}}
 		}
+	}
+	if g.forceCopySrc {
+		for _, j := range []int{rng.Intn(len(vSchema[n])), 0, 1, 2, 3, 4, 5, 6, 7, 8, 9, 10} {
+			if j < len(vSchema[n]) {
+				if f := vSchema[n][j]; f.k == kSl || f.k == kPs || f.k == kAny {
+					if pl := g.planCrossDir(pos, j, f, all, false); pl != nil {
+						return pl
+					}
+				}
+			}
+		}
+		return nil
 	}
 	j := rng.Intn(len(vSchema[n]))
 	if g.forceC >= 0 {
@@ -1188,6 +1269,16 @@ func (g *vProg) planSetP(pos vPos, j int, z int64) *vPlan {
 	return &vPlan{term: fmt.Sprintf("OLocal %d %s (LSetP %d %s)", pos.h, vPathTerm(pos.p), j, vZ(z)), name: "set-prim", writes: []int{pos.h}, run: set}
 }
 
+func vPrimSliceFields(n int) []int {
+	var r []int
+	for j, f := range vSchema[n] {
+		if f.k == kPs {
+			r = append(r, j)
+		}
+	}
+	return r
+}
+
 func vOptFields(n int) []int {
 	var r []int
 	for j, f := range vSchema[n] {
@@ -1309,7 +1400,7 @@ func (g *vProg) planCrossDir(pos vPos, j int, f vFld, all []vPos, hotDst bool) *
 		}
 	}
 	src, sj, dst, dj := pos, j, c.q, c.j
-	if g.forceK < 0 && (hotDst || rng.Bool()) {
+	if g.forceK < 0 && !g.forceCopySrc && (hotDst || rng.Bool()) {
 		src, sj, dst, dj = c.q, c.j, pos, j
 	}
 	sw := vSlotW(src.n, src.node, sj)
@@ -1337,6 +1428,9 @@ func (g *vProg) planCrossDir(pos vPos, j int, f vFld, all []vPos, hotDst bool) *
 	}
 	if g.forceK >= 0 {
 		kind = g.forceK
+	}
+	if g.forceCopySrc {
+		kind = 0
 	}
 	// the source of a move must end up without capacity: observed too (struct slices, Map, Slice)
 	addSrcCap := func(pl *vPlan) *vPlan {
@@ -1397,7 +1491,12 @@ func (g *vProg) planCrossDir(pos vPos, j int, f vFld, all []vPos, hotDst bool) *
 	}
 	g.regressionShape(srcBefore, vReadSlot(dst.n, dst.node, dj))
 	return addCap(&vPlan{term: "OCopySlot " + vStyTerm(f) + " " + args, name: "copy-slot-" + []string{"prim", "opt", "slice", "primslice", "ptr", "oneof", "value"}[f.k], writes: []int{dst.h},
-		run: func() { vCall(sw, "CopyTo", dw) },
+		run: func() {
+			vCall(sw, "CopyTo", dw)
+			if g.ro[src.h] {
+				g.touchH, g.touchN = dst.h, 4
+			}
+		},
 		post: func(_ []string, panicked bool) {
 			if panicked {
 				return
@@ -1606,7 +1705,7 @@ func TestVerifC07(t *testing.T) {
 	rng := vNewRand(7)
 	nprog := vBudget(400, 12)
 	for i := 0; i < nprog; i++ {
-		g := &vProg{rng: rng, out: out, forceC: -1, forceK: -1, forceH: -1, hotMax: -1, hotAvd: -1}
+		g := &vProg{rng: rng, out: out, forceC: -1, forceK: -1, forceH: -1, hotMax: -1, hotAvd: -1, roCopy: -1}
 		steps := 8 + rng.Intn(18)
 		if i%3 == 0 {
 			// scenario prefix: two slices of one type, both populated, the second one filtered; the
